@@ -111,7 +111,7 @@ Qed.
 
 Theorem step_inv : forall i o s, Inv s -> Inv (fst (stepT i o s)).
 Proof.
-  intros i o s HI. destruct o as [k|k p|k| | |]; cbn [step].
+  intros i o s HI. destruct o as [k|k c p|k| | |]; cbn [step].
   - pose proof (load_inv i k s HI) as [H _]. destruct (load i k s) as [s1 r]. exact H.
   - pose proof (load_inv i k s HI) as [H [_ [_ HL]]]. destruct (load i k s) as [s1 [e|]]; cbn [fst snd] in *; [|exact H].
     apply (touch_inv i k e); [exact H|apply HL; reflexivity|reflexivity|reflexivity].
